@@ -1,3 +1,4 @@
+\* exhaustive TLC configuration for property C11 (generated by spec/mkcfg.py; constants explained in RcProxy.tla)
 SPECIFICATION Spec
 CONSTANTS
   c1 = c1
@@ -5,15 +6,16 @@ CONSTANTS
   Clients = {c1}
   Nodes = {"n1", "n2"}
   SlotNode <- Slot2
-  Menu <- MenuBase
-  MaxReq <- MR1x3
+  Menu <- MenuMulti
+  MaxReq <- MR1x2
+  AnswerKinds <- AKerr
   MaxMsg = 4
-  AnswerKinds <- AKok
   TimeoutOn = FALSE
   MaxBkClose = 0
   AllowCliClose = FALSE
   MaxHops = 0
-  MaxBurst = 3
+  MaxBurst = 2
+  CanonKinds = TRUE
   PoolAny = TRUE
 INVARIANTS NoViolation DoneMsgHasDoneFrags QueuedMsgsInUse LiveFragPeer
 VIEW view
